@@ -822,3 +822,52 @@ Proof.
 Qed.
 
 End Forms.
+
+(* ================================================================ textbook form over a ring *)
+Section Textbook.
+Context {R : Type} (ops : numops R).
+Hypothesis Rth : ring_theory (nzero ops) (none_ ops) (nadd ops) (nmul ops) (nsub ops) (nneg ops) eq.
+
+(* (A . B)[i, j] = sum_k A[i, k] * B[k, j] *)
+Theorem matmul_textbook x y ln0 ln1 rn0 rn1 m n k :
+  view_wf (op_view x) -> view_wf (op_view y) ->
+  v_shape (op_view x) = [(ln0, m); (ln1, n)] -> v_shape (op_view y) = [(rn0, n); (rn1, k)] ->
+  ln0 <> rn1 -> m * k <= usize_max ->
+  exists t, t_matmul ops x y = Ok t /\ t_shape t = [(ln0, m); (rn1, k)] /\
+    forall i j, i < m -> j < k ->
+      exists row col,
+        map Some row = map (fun kk => v_get (op_view x) [i; kk]) (nrange n) /\
+        map Some col = map (fun kk => v_get (op_view y) [kk; j]) (nrange n) /\
+        t_get t [i; j] = Some (sum_list ops (map2 (nmul ops) row col)).
+Proof.
+  intros Hl Hr Sl Sr Hne Hb.
+  destruct (matmul_ok ops x y ln0 ln1 rn0 rn1 m n k Hl Hr Sl Sr Hne Hb) as [t [Ht [Hs [_ Hc]]]].
+  exists t. split; [exact Ht|]. split; [exact Hs|]. intros i j Hi Hj.
+  destruct (Hc i j Hi Hj) as [row [col [Er [Ec [Lr [Lc [_ Hg]]]]]]].
+  exists row, col. split; [|split].
+  - symmetry. apply sequence_Some. exact Er.
+  - symmetry. apply sequence_Some. exact Ec.
+  - rewrite Hg. apply (reduce_is_sum ops Rth).
+    intros E0. apply (f_equal (@length _)) in E0. rewrite map2_length, Lr, Lc in E0.
+    assert (0 < n).
+    { destruct Hl as [[_ Hpos] _]. rewrite Sl in Hpos. cbn in Hpos.
+      inversion Hpos as [|? ? H1 H2]; subst. inversion H2; subst. auto. }
+    cbn in E0. lia.
+Qed.
+
+Theorem dot_textbook x y nm len : operand_wf x -> operand_wf y ->
+  op_shape x = [(nm, len)] -> op_shape y = [(nm, len)] ->
+  exists lx ly, op_iter x = Some lx /\ op_iter y = Some ly /\
+    (forall i, i < len -> nth_error lx (N.to_nat i) = op_at x [i] /\
+                          nth_error ly (N.to_nat i) = op_at y [i]) /\
+    t_dot ops x y = Ok (sum_list ops (map2 (nmul ops) lx ly)).
+Proof.
+  intros Hx Hy Sx Sy.
+  destruct (dot_ok ops x y nm len Hx Hy Sx Sy) as [lx [ly [r [Ex [Ey [Lx [Ly [Nth [Hr Hd]]]]]]]]].
+  exists lx, ly. repeat split; auto; try apply Nth; auto.
+  rewrite Hd. f_equal.
+  assert (Hne : map2 (nmul ops) lx ly <> []).
+  { intros E. rewrite E in Hr. discriminate. }
+  rewrite (reduce_is_sum ops Rth _ Hne) in Hr. congruence.
+Qed.
+End Textbook.
